@@ -16,3 +16,8 @@ claim("C12", "go/cfg must-pass over the caller chain + error-propagation idiom c
       "Structural: every rule function lies on every success path from each Go plugin's Generate() (must-pass through the chain of callers, loops over descriptor collections transparent), walkers recurse into nested messages, every error from a rule is propagated at every call site, each field-level predicate is evaluated for all 90 field shapes x all remaining annotation decisions by walking its syntax tree and compared with the documented table in both directions, and no plugin other than the documented ones can refuse a definition. Message-level predicates (collision maps, unwrap counting, HTTP config rules) are covered for wiring and propagation only.",
       "Oracle tables transcribed from proto/sebuf/http/annotations.proto comments and the property statement; trusts protogen's Run() error contract and Field.Oneof/Message facts.",
       "DESIGN.md 5/C12")
+
+claim("C16", "call-graph SCC classification with go/cfg dominance of visited-set insertions; who-may-panic; domain-specific nil-guard and index-guard dominance",
+      "Structural: every recursion cycle among generator functions is containment-decreasing, visited-guarded (insertion precedes the recursive call on every CFG path, entry test present) or confined to the map arm; no unbounded for; no panic/log.Fatal/os.Exit outside unreadable-input and stdout-failure handling; every Field.Message/Enum/Oneof dereference and every constant index into a descriptor slice has a dominating guard (local, at all callers, struct witness, or a frozen reasoned exception). These are necessary conditions for 'terminates with an answer'; no numeric time/memory bound is decided.",
+      "Trusts descriptor facts (finite declaration tree, map values are not maps, map entries have two fields) and protogen/libopenapi termination.",
+      "DESIGN.md 5/C16")
